@@ -6,6 +6,7 @@
   `reify`), `mkAnswer` reports one term per query variable in declaration order.
 -/
 import PvModel.Proofs.Surface
+import PvModel.Proofs.SurfaceSem
 import PvModel.Props.C03
 namespace Pv
 namespace Surface
@@ -35,6 +36,33 @@ theorem C14_clause_shape (env : Env) (a b : STerm) (g1 g2 : SGoal) (x : Name) (n
 theorem C14_query_order (ord : Order) (qs : List Term) (st : State) (i : Nat) (q : Term) (h : qs[i]? = some q) :
     (mkAnswer ord qs st).terms[i]? = some (apply st.σ q) := by
   simp [mkAnswer, h]
+
+/-- TERMS DENOTE THE WRITTEN TERM: under a valuation of the names in scope, a surface term (literals, `[]`,
+    proper / improper / nested lists, variables, `_`) can denote the value `v` exactly when the elaborated
+    term evaluates to `v` for some values of the fresh variables standing for its `_`s. -/
+theorem C14_term (env : Env) (γ0 : Valu) (t : STerm) (n : Nat) (v : Term) (henv : ∀ x, env x < n) :
+    DenT (fun x => γ0 (env x)) t v ↔
+      ∃ γ : Valu, (∀ w, w < n → γ w = γ0 w) ∧ apply γ (elabT env t n).1 = v := elabT_sem env γ0 t n v henv
+
+/-- EVERY CLAUSE DENOTES ITS DOCUMENTED GOAL: `==` "some common value", `!=` "two different values", `[..]` ∧,
+    `conde` ∨, `|x| {..}` ∃ x, `true`/`false`, pattern-match arms — under any valuation of the names in
+    scope, the documented meaning `Den` holds exactly when the elaborated goal holds for some values of the
+    variables the elaboration allocates. -/
+theorem C14_clause (g : SGoal) (env : Env) (γ0 : Valu) (n : Nat) (henv : ∀ x, env x < n) :
+    Den (fun x => γ0 (env x)) g ↔ ∃ γ : Valu, (∀ w, w < n → γ w = γ0 w) ∧ SatE γ (elabG env g n).1 :=
+  elab_sem g env γ0 n henv
+
+section Examples
+open Term
+/-- `|x| { x == 1, q == [x | _] }` with `q ↦ id 0`: the premises of `C14_clause` are met and both sides hold for `q = [1]` -/
+example : Den (fun _ => Term.cons (num 1) .nil)
+    (.fresh 1 (.conj (.eq (.var 1) (.val (.num 1))) (.eq (.var 0) (.cons (.var 1) .any)))) := by
+  refine ⟨num 1, ⟨num 1, ?_, ?_⟩, ⟨.cons (num 1) .nil, ?_, ?_⟩⟩
+  · exact DenT.var 1
+  · exact .val _
+  · exact DenT.var 0
+  · exact .cons (DenT.var 1) (.any _)
+end Examples
 
 end Surface
 end Pv
